@@ -257,6 +257,20 @@ func runKV(c KVCase, o *Obs) error {
 			if ok != live || (ok && v != want) {
 				return fmt.Errorf("%s: Get(%s) = (%q,%v), model says (%q,%v)", where, kn, v, ok, want, live)
 			}
+			// the other form of Get: the entry with its metadata (what the SQL layer uses)
+			var cv crdtpub.Value
+			ok2, err := h.db.Get(ctx, kn, &cv)
+			if err != nil {
+				return fmt.Errorf("%s: Get(%s) into a crdt.Value: %v", where, kn, err)
+			}
+			if ok2 != live {
+				return fmt.Errorf("%s: Get(%s) into a crdt.Value reports present=%v, Get into a string %v, model %v (entry %+v)", where, kn, ok2, ok, live, h.model[kn])
+			}
+			if ok2 {
+				if fmt.Sprint(cv.Value) != want || cv.TombstoneSinceEpochNanos != 0 || cv.ModEpochNanos != h.model[kn].T*1e9 {
+					return fmt.Errorf("%s: Get(%s) into a crdt.Value = {%v mod=%d tomb=%d}, model entry %+v", where, kn, cv.Value, cv.ModEpochNanos, cv.TombstoneSinceEpochNanos, h.model[kn])
+				}
+			}
 			ts, err := h.db.IsTombstoned(ctx, kn)
 			if err != nil {
 				return fmt.Errorf("%s: IsTombstoned(%s): %v", where, kn, err)
@@ -561,7 +575,7 @@ func runKV(c KVCase, o *Obs) error {
 func init() { register("TestC17_KV", runKV) }
 
 func TestC17_KV(t *testing.T) {
-	st := newStats(t, "C17", "TestC17_KV", "state machine directly on kv.DB over the fake store: 1-3 handles, 3-45 steps of Set/Tombstone(key, time) with unique times in arbitrary order, Commit, Clone, Reopen (merges all current versions in a generated order through the permutation hook), RemoveTombstones(before), Diff(handle, handle), TraceHistory(key); modes default / OnConflictMerged callback / CustomMerge (the documented join supplied by the harness); gob and JSON node codecs, three node formats, branch factor 2-4096; a fifth of the cases contain a tree purged until it is empty and touched again before the Commit; after every step Get, IsTombstoned, Size and a full cursor scan (values, times, tombstones) of every handle, also those that did not take part in the step, must equal a map model (later time wins, a tombstone beats every value, the earliest tombstone is kept, purge forgets); Diff must report exactly the keys whose visible value differs, once, with both values; TraceHistory must start at the current value, yield only (time,value) pairs that were Set, in strictly decreasing time; the callback must only see two different live values held by the merged versions; non-trivial = a merge of >=2 versions after a write older than what was stored")
+	st := newStats(t, "C17", "TestC17_KV", "state machine directly on kv.DB over the fake store: 1-3 handles, 3-45 steps of Set/Tombstone(key, time) with unique times in arbitrary order, Commit, Clone, Reopen (merges all current versions in a generated order through the permutation hook), RemoveTombstones(before), Diff(handle, handle), TraceHistory(key); modes default / OnConflictMerged callback / CustomMerge (the documented join supplied by the harness); gob and JSON node codecs, three node formats, branch factor 2-4096; a fifth of the cases contain a tree purged until it is empty and touched again before the Commit; after every step Get (into a plain value and into a crdt.Value with its metadata), IsTombstoned, Size and a full cursor scan (values, times, tombstones) of every handle, also those that did not take part in the step, must equal a map model (later time wins, a tombstone beats every value, the earliest tombstone is kept, purge forgets); Diff must report exactly the keys whose visible value differs, once, with both values; TraceHistory must start at the current value, yield only (time,value) pairs that were Set, in strictly decreasing time; the callback must only see two different live values held by the merged versions; non-trivial = a merge of >=2 versions after a write older than what was stored")
 	st.Assume = append(st.Assume, "the gob version-object format (kv_version 0) is only read, never written, by this code and its type lives in an internal package: not reachable from the harness module")
 	checkRapid(t, st, genKVCase, runKV)
 }
